@@ -37,28 +37,12 @@ Theorem IoBridge_values_commute : forall P E rt v, IterLaws P E rt -> io_guard P
   rmap (map (emb P E)) (C.itervalues rt v) = down (xvalues (emb P E v)).
 Proof. intros P E rt v. exact (values_commute P E rt v). Qed.
 
-(* serdes.iteritems as its callers consume it (`for k, v in serdes.iteritems(x)`) *)
-Theorem IoBridge_items_commute : forall P E rt v, IterLaws P E rt ->
-  io_guard P E v = true -> unpack_guard P E v = true ->
+(* serdes.iteritems as its callers consume it (`for k, v in serdes.iteritems(x)`): every value, any members.
+   (Scalar members of an iterable of pairs are unpacked by the runtime field unpack_scalar, law il_unpack; with
+   the previous definition of Core.unpack2 this statement was false: IoBridge_pinned_full_refuted below.) *)
+Theorem IoBridge_items_commute : forall P E rt v, IterLaws P E rt -> io_guard P E v = true ->
   rmap (map (emb2 P E)) (C.iteritems rt E v) = down (xitems (emb P E v)).
 Proof. intros P E rt v. exact (items_commute P E rt v). Qed.
-
-(* The full statement (no unpack_guard) is FALSE of Core.iteritems: see IoBridge_refuted_unpack_* below.
-   It is true of the corrected function (scalar elements unpacked by the runtime, not through itervalues),
-   which is Core's own wherever unpack_guard holds. *)
-Definition IoBridge_items_full : Prop :=
-  forall P E rt v, IterLaws P E rt -> io_guard P E v = true ->
-    rmap (map (emb2 P E)) (C.iteritems rt E v) = down (xitems (emb P E v)).
-
-Theorem IoBridge_items_fixed_commute : forall P E rt us v, IterLaws P E rt -> UnpackLaw P E us ->
-  io_guard P E v = true ->
-  rmap (map (emb2 P E)) (iteritems_fixed E rt us v) = down (xitems (emb P E v)).
-Proof. intros P E rt us v. exact (items_fixed_commute P E rt us v). Qed.
-
-Theorem IoBridge_items_fixed_agrees : forall P E rt us v, IterLaws P E rt -> UnpackLaw P E us ->
-  unpack_guard P E v = true ->
-  rmap (map (emb2 P E)) (iteritems_fixed E rt us v) = rmap (map (emb2 P E)) (C.iteritems rt E v).
-Proof. intros P E rt us v. exact (items_fixed_agrees P E rt us v). Qed.
 
 (* serdes.load: text scalars go through the text model, everything else comes back untouched *)
 Theorem IoBridge_load_commute : forall T srt rt v, LoadLaw T srt rt ->
@@ -84,12 +68,10 @@ Proof. intros T SB. exact (unS_sound T SB). Qed.
 (* the runtime whose scalar fields are DEFINED from the two models obeys all the laws *)
 Theorem IoBridge_induced_laws : forall P E i_back T srt base, BackLaws P E i_back ->
   IterLaws P E (io_runtime P E i_back T srt base) /\
-  UnpackLaw P E (ind_unpack P E i_back) /\
   LoadLaw T srt (io_runtime P E i_back T srt base).
 Proof.
   intros P E i_back T srt base BL.
-  exact (conj (induced_iter_laws P E i_back BL T srt base)
-              (conj (induced_unpack_law P E i_back BL) (induced_load_law T srt P E i_back base))).
+  exact (conj (induced_iter_laws P E i_back BL T srt base) (induced_load_law T srt P E i_back base)).
 Qed.
 
 (* ---------------------------------------------------------------- (b) C18 carried over to the core functions *)
@@ -101,7 +83,7 @@ Proof. intros P E rt v. exact (values_spec P E rt v). Qed.
 
 (* C18_items: the consumer of iteritems(v) sees exactly the prescribed elements, unpacked *)
 Theorem IoBridge_C18_items : forall P E rt v, IterLaws P E rt -> io_guard P E v = true ->
-  unpack_guard P E v = true -> C.is_scalar v = false ->
+  C.is_scalar v = false ->
   rmap (map (emb2 P E)) (C.iteritems rt E v) = down (imapM unpackI (I.spec_items (emb P E v))).
 Proof. intros P E rt v. exact (items_spec P E rt v). Qed.
 
@@ -177,33 +159,42 @@ Theorem IoBridge_C14_unm_json_text : forall T srt rt E n t a k s r d, LoadLaw T 
   C.unm rt E n t (C.PAtom a) = C.unm rt E n t d.
 Proof. exact unm_json_text. Qed.
 
-(* ---------------------------------------------------------------- (c) where the two models disagree *)
+(* ---------------------------------------------------------------- (c) where the two models DISAGREED *)
+(* Until the runtime field unpack_scalar existed, Core.unpack2 unpacked a scalar member through serdes.itervalues
+   (unpack2_pinned / iteritems_pinned are that definition).  It agrees with the present one wherever unpack_guard
+   holds, and was refuted by the code outside (replayed on /repo: notes/iobridge.md); the witnesses stay part of
+   every run of the core-io stream, where Core.iteritems must now agree with the code. *)
+Theorem IoBridge_pinned_agrees : forall P E rt v, IterLaws P E rt -> unpack_guard P E v = true ->
+  rmap (map (emb2 P E)) (iteritems_pinned E rt v) = rmap (map (emb2 P E)) (C.iteritems rt E v).
+Proof. intros P E rt v. exact (items_pinned_agrees P E rt v). Qed.
+
 Definition pair12 : C.pv := C.PSeq C.KTuple [int_atom 1; int_atom 2].
-(* [(1, 2), UUID(int=5)]: Core.iteritems unpacks the UUID through serdes.itervalues into its two public slots;
-   the code (`for k, v in ...`) raises TypeError: cannot unpack non-iterable UUID object.  Iter.v is right
-   (replayed on /repo: notes/iobridge.md); Core.unpack2 is wrong on scalars that are not iterable but have
-   public fields.  toy_io_rt obeys IterLaws, so this refutes the full statement. *)
-Theorem IoBridge_refuted_unpack_noniterable :
+(* [(1, 2), UUID(int=5)]: the previous definition unpacked the UUID into its two public slots; the code
+   (`for k, v in ...`) raises TypeError: cannot unpack non-iterable UUID object -- and so does Core.iteritems now *)
+Theorem IoBridge_pinned_refuted_noniterable :
   let v := C.PSeq C.KList [pair12; C.PAtom 3] in
   IterLaws toy_shape toy_env toy_io_rt /\ io_guard toy_shape toy_env v = true /\
   unpack_guard toy_shape toy_env v = false /\
-  C.iteritems toy_io_rt toy_env v = C.Ok [(int_atom 1, int_atom 2); (int_atom 5, C.PAtom 0)] /\
+  iteritems_pinned toy_env toy_io_rt v = C.Ok [(int_atom 1, int_atom 2); (int_atom 5, C.PAtom 0)] /\
   xitems (emb toy_shape toy_env v) = I.Raise I.EType /\
-  iteritems_fixed toy_env toy_io_rt (ind_unpack toy_shape toy_env toy_back) v = C.Raise C.EType.
+  C.iteritems toy_io_rt toy_env v = C.Raise C.EType.
 Proof. split; [exact toy_iter_laws|]. vm_compute. repeat split. Qed.
 
-(* [(1, 2), mappingproxy({0: 1, 1: 0})]: Core yields the mapping's VALUES (1, 0), the code its KEYS (0, 1) *)
-Theorem IoBridge_refuted_unpack_mapping :
+(* [(1, 2), mappingproxy({0: 1, 1: 0})]: the previous definition yielded the mapping's VALUES (1, 0), the code
+   (and Core.iteritems now) its KEYS (0, 1) *)
+Theorem IoBridge_pinned_refuted_mapping :
   let v := C.PSeq C.KList [pair12; C.PAtom 4] in
   IterLaws toy_shape toy_env toy_io_rt /\ io_guard toy_shape toy_env v = true /\
   unpack_guard toy_shape toy_env v = false /\
-  C.iteritems toy_io_rt toy_env v = C.Ok [(int_atom 1, int_atom 2); (int_atom 1, int_atom 0)] /\
+  iteritems_pinned toy_env toy_io_rt v = C.Ok [(int_atom 1, int_atom 2); (int_atom 1, int_atom 0)] /\
   xitems (emb toy_shape toy_env v) = I.Ok [(I.VInt 1, I.VInt 2); (I.VInt 0, I.VInt 1)] /\
-  iteritems_fixed toy_env toy_io_rt (ind_unpack toy_shape toy_env toy_back) v
-    = C.Ok [(int_atom 1, int_atom 2); (int_atom 0, int_atom 1)].
+  C.iteritems toy_io_rt toy_env v = C.Ok [(int_atom 1, int_atom 2); (int_atom 0, int_atom 1)].
 Proof. split; [exact toy_iter_laws|]. vm_compute. repeat split. Qed.
 
-Theorem IoBridge_items_full_refuted : ~ IoBridge_items_full.
+Definition IoBridge_pinned_full : Prop :=
+  forall P E rt v, IterLaws P E rt -> io_guard P E v = true ->
+    rmap (map (emb2 P E)) (iteritems_pinned E rt v) = down (xitems (emb P E v)).
+Theorem IoBridge_pinned_full_refuted : ~ IoBridge_pinned_full.
 Proof.
   intros H.
   assert (Hv := H toy_shape toy_env toy_io_rt (C.PSeq C.KList [pair12; C.PAtom 3]) toy_iter_laws eq_refl).
@@ -242,7 +233,7 @@ Example IoBridge_guards_inhabited :
   let n := C.PNamed 1 [pair12; C.PAtom 0] in
   let s := C.PSeq C.KSet [C.PKey 0; pair12] in
   let d := C.PDict C.KOrderedDict [(C.PKey 1, o)] in
-  forallb (fun v => io_guard toy_shape toy_env v && unpack_guard toy_shape toy_env v) [o; n; s; d; C.PAtom 2] = true /\
+  forallb (io_guard toy_shape toy_env) [o; n; s; d; C.PAtom 2; C.PSeq C.KList [pair12; C.PAtom 3]] = true /\
   C.iteritems toy_io_rt toy_env o = C.Ok [(C.PKey 0, int_atom 7); (C.PKey 1, C.PAtom 1)] /\
   C.iteritems toy_io_rt toy_env n = C.Ok [(C.PKey 0, pair12); (C.PKey 1, C.PAtom 0)] /\
   C.iteritems toy_io_rt toy_env s = C.Ok [(chr_atom "a", chr_atom "b"); (int_atom 1, int_atom 2)] /\
@@ -266,8 +257,6 @@ Print Assumptions IoBridge_results_faithful.
 Print Assumptions IoBridge_scalar_shape.
 Print Assumptions IoBridge_values_commute.
 Print Assumptions IoBridge_items_commute.
-Print Assumptions IoBridge_items_fixed_commute.
-Print Assumptions IoBridge_items_fixed_agrees.
 Print Assumptions IoBridge_load_commute.
 Print Assumptions IoBridge_load_embS.
 Print Assumptions IoBridge_readback.
@@ -285,7 +274,8 @@ Print Assumptions IoBridge_C14_load_nontext.
 Print Assumptions IoBridge_unm_text_is_value.
 Print Assumptions IoBridge_C14_unm_carriers.
 Print Assumptions IoBridge_C14_unm_json_text.
-Print Assumptions IoBridge_refuted_unpack_noniterable.
-Print Assumptions IoBridge_refuted_unpack_mapping.
-Print Assumptions IoBridge_items_full_refuted.
+Print Assumptions IoBridge_pinned_agrees.
+Print Assumptions IoBridge_pinned_refuted_noniterable.
+Print Assumptions IoBridge_pinned_refuted_mapping.
+Print Assumptions IoBridge_pinned_full_refuted.
 Print Assumptions IoBridge_guard_needed.
